@@ -446,6 +446,10 @@ pub fn run(ctx: &mut Ctx) {
                 let twins: Vec<AnnFact> = anns.iter().filter(|a| a.kind == crate::model::Kind::Orpha && a.id == 77).map(|a| Facts::ann(crate::model::Kind::Omim, 77, "Omim seventy-seven", a.term)).collect();
                 anns.retain(|a| !(a.kind == crate::model::Kind::Orpha && a.id == 78));
                 anns.extend(twins);
+                // two more genes on the terms of gene 11 whose ids are congruent to 11 modulo 2^8 and modulo 2^16 (a key
+                // that packs or narrows the gene id must not let two of these rows pass for one)
+                let cong: Vec<AnnFact> = anns.iter().filter(|a| a.kind == crate::model::Kind::Gene && a.id == 11).flat_map(|a| [Facts::ann(crate::model::Kind::Gene, 11 + 256, "GENE267", a.term), Facts::ann(crate::model::Kind::Gene, 11 + 65_536, "GENE65547", a.term)]).collect();
+                anns.extend(cong);
                 // subsets 2, 6 (mod 4 == 2): the two genes share their symbol; subsets 3, 7: the two OMIM diseases share
                 // their name (names are not keys; the row orders below make their rows adjacent and non-adjacent)
                 if s % 4 == 2 {
